@@ -1105,4 +1105,15 @@ def run(tier, seed, replay):
             res.notes.append("correspondence skipped: generated wiring unavailable")
     except fw.Infra as e:
         res.oblige("correspondence run", False, str(e))
-    return fw.finish(res, search)
+
+    def search_all(r):
+        # the ControlCompose tie belongs to C03's obligations: when it breaks, C18's oracles on the
+        # real Control / compute_dynamics look for the concrete failing input
+        search(r)
+        from . import run_C18
+        sub = fw.Result(PID, r.tier, r.seed)
+        run_C18.search(sub)
+        for key, payload in sub.failing:
+            if key != run_C18.KEY_MIXED:        # C18's known finding is not a C03 matter
+                r.fail("control:" + key, payload)
+    return fw.finish(res, search_all)
